@@ -82,11 +82,11 @@ theorem merged_species_as_is_mislabels :
 /-- a successful merge produces a directory that announces itself complete and opens as a merged store whose parts are
     exactly the input stores in the order given; its trajectories are therefore the concatenation of the inputs -/
 theorem merge_yields_concatenation (fsys : FS) (inputs : List String) (fs : List (String × StoreFile))
-    (hv : validate fsys inputs = .ok fs) (hnodup : inputs.Nodup) :
+    (hv : validate fsys inputs = .ok fs) :
     (merge fsys inputs none).2 = .ok true ∧
     openMerged (merge fsys inputs none).1 = some (fs.map (·.2.items)) ∧
     ∀ i, (do let parts ← openMerged (merge fsys inputs none).1; locate parts i) = (fs.map (·.2.items)).flatten[i]? := by
-  obtain ⟨hout, hall, hnames, _, _⟩ := validate_ok hv
+  obtain ⟨hout, hall, hnames, _, _, hnodup⟩ := validate_ok hv
   have hnd : (fs.map (·.1)).Nodup := by rw [hnames]; exact hnodup
   have hc := run_complete fsys fs hout hall hnd
   obtain ⟨_, _, h3⟩ := run_all fsys fs none hout hall
@@ -152,6 +152,19 @@ example :
     let c : StoreFile := ⟨[], 0, false⟩
     let top : String → Option StoreFile := fun n => if n = "a" then some a else if n = "b" then some b else if n = "c" then some c else none
     validate ⟨top, none⟩ ["a", "b"] = .error .fieldSets ∧ validate ⟨top, none⟩ ["a", "c"] = .error .indexability := by
+  constructor <;> rfl
+
+/-- a validated list of inputs has pairwise distinct file names (the inputs are moved into one directory under their own names:
+    the hypothesis `inputs.Nodup` that `merge_yields_concatenation` needed before the second C09 fix is now a consequence of the
+    validation, not an assumption about the caller) -/
+theorem validated_inputs_have_distinct_names (fsys : FS) (inputs : List String) (fs : List (String × StoreFile))
+    (hv : validate fsys inputs = .ok fs) : inputs.Nodup := (validate_ok hv).2.2.2.2.2
+
+/-- … and a list that names the same file twice is refused by name, with nothing touched (`merge_refuses_mismatch`) -/
+example :
+    let a : StoreFile := ⟨[], 0, true⟩
+    let top : String → Option StoreFile := fun n => if n = "a" then some a else if n = "b" then some a else none
+    validate ⟨top, none⟩ ["a", "b", "a"] = .error .duplicateNames ∧ (validate ⟨top, none⟩ ["a", "b"]).isOk = true := by
   constructor <;> rfl
 
 /-! ### the lookup arithmetic of the SOURCE (`Gen.loc*`, regenerated from `trajectories/store.py` on every run) -/
